@@ -209,7 +209,7 @@ def requested_loop(body, add):
         # Some-edge of the switch on the result
         some = None
         for bb, ce in fc.ces.items():
-            if ce.expr[0] == "discr" and ce.expr[1][0] == "call" and ce.expr[1][3] == hb:
+            if ce.expr[0] == "discr" and ce.expr[1][0] == "call" and ce.expr[1][3] == hb and not ce.expr[1][4]:
                 some = ce.target_for(1)
         if some is None:
             add("R01d", "requested-changes loop has a Some arm", False, "cannot find the switch on next_requested_change()", ht.line)
@@ -232,7 +232,7 @@ def unsent_loop(body, add, rule="R01d"):
     for hb, ht in heads:
         some = None
         for bb, ce in fc.ces.items():
-            if ce.expr[0] == "discr" and ce.expr[1][0] == "call" and ce.expr[1][3] == hb:
+            if ce.expr[0] == "discr" and ce.expr[1][0] == "call" and ce.expr[1][3] == hb and not ce.expr[1][4]:
                 some = ce.target_for(1)
         if some is None:
             continue
